@@ -151,9 +151,17 @@ func (db *DB) Compact() (CompactionResult, error) {
 		db.maintenanceMu.Unlock()
 	}()
 
-	db.mu.RLock()
+	db.mu.Lock()
 	segments := db.pickForCompaction()
-	db.mu.RUnlock()
+	// Seal the picked segments right away: a record written to a picked segment later on would
+	// be compacted without the older segments (a delete record would be lost too early).
+	for _, seg := range segments {
+		if err := db.datalog.seal(seg); err != nil {
+			db.mu.Unlock()
+			return cr, err
+		}
+	}
+	db.mu.Unlock()
 	verifYield("compact.picked")
 
 	for _, seg := range segments {
